@@ -41,6 +41,10 @@ var raceTemplates = [][]string{
 	{"KEYS", "*"}, {"SCAN", "0"}, {"RANDOMKEY"}, {"DBSIZE"}, {"SORT", "kl", "ALPHA"}, {"SORT", "kl", "ALPHA", "STORE", "kl2"}, {"DUMP", "ks"}, {"FLUSHDB"}, {"FLUSHALL"}, {"SELECT", "1"},
 	{"PING"}, {"ECHO", "x"}, {"HELLO", "3"}, {"CLIENT", "ID"}, {"CLIENT", "SETNAME", "nm"}, {"CLIENT", "GETNAME"}, {"CLIENT", "INFO"}, {"CLIENT", "LIST"}, {"CLIENT", "NO-EVICT", "on"}, {"CLIENT", "UNBLOCK", "$id0"}, {"CLIENT", "KILL", "ID", "$id0"},
 	{"INFO"}, {"COMMAND", "COUNT"}, {"COMMAND", "GETKEYS", "SET", "a", "b"}, {"WATCH", "ks"}, {"UNWATCH"},
+	// the remaining handlers (every handler of the dispatch table has a template)
+	{"CLIENT", "SETINFO", "LIB-NAME", "lib"}, {"CLIENT", "SETINFO", "LIB-VER", "1.0"}, {"COMMAND", "DOCS", "get"}, {"COMMAND", "GETKEYSANDFLAGS", "SET", "a", "b"}, {"COMMAND", "INFO", "get"}, {"COMMAND", "LIST"}, {"COMMAND", "HELP"},
+	{"DECR", "ks"}, {"INCRBY", "ks", "2"}, {"HMSET", "kh", "f", "v"}, {"PEXPIREAT", "kl", "1893457000000"}, {"PSETEX", "ks", "100000", "v"}, {"RPUSHX", "kl", "v"}, {"SUBSTR", "ks", "0", "0"},
+	{"BRPOP", "kl", "0.01"}, {"BRPOPLPUSH", "kl", "kl2", "0.01"}, {"BLMPOP", "0.01", "1", "kl", "LEFT"},
 }
 
 var raceSetup = [][]string{
@@ -319,6 +323,46 @@ func parseRaceReports(dir string) (reports []raceReport, rawCount int) {
 		fh.Close()
 	}
 	return
+}
+
+// runRaceCompanion: the scenarios of another property's group explored in the race build; what the
+// race detector reports is a violation of that property (C08: a command that touches the store
+// without the database lock is not atomic, even though the controlled scheduler, which switches
+// threads at synchronisation operations only, cannot interleave inside it).
+func runRaceCompanion(prop string, groups []string, bound int, tier string, rep *Report) {
+	if !verifrt.RaceEnabled {
+		rep.HarnessErr = append(rep.HarnessErr, "the race companion pass must run in the -race build")
+		return
+	}
+	dir := os.Getenv("VERIF_RACE_DIR")
+	if dir == "" {
+		rep.HarnessErr = append(rep.HarnessErr, "VERIF_RACE_DIR is not set")
+		return
+	}
+	for _, group := range groups {
+		runExplore(prop, group, exploreScenarios(prop, group, tier), bound, tier, rep)
+	}
+	group := strings.Join(groups, "+")
+	reports, raw := parseRaceReports(dir)
+	counts := map[string]int{}
+	first := map[string]*raceReport{}
+	var order []string
+	for i := range reports {
+		r := &reports[i]
+		counts[r.Sig]++
+		if first[r.Sig] == nil {
+			first[r.Sig] = r
+			order = append(order, r.Sig)
+		}
+	}
+	sort.Strings(order)
+	for _, sig := range order {
+		r := first[sig]
+		rep.add("unsynchronised-access|"+sig, fmt.Sprintf("race detector, scenarios %s/%s: %s at %s  vs  %s at %s: the command is not executed under the lock that makes it atomic", prop, group, r.Kinds[0], r.Stacks[0][0], r.Kinds[1], r.Stacks[1][0]), map[string]any{"stack1": r.Stacks[0], "stack2": r.Stacks[1]})
+		rep.findings["unsynchronised-access|"+sig].Count = counts[sig]
+	}
+	rep.Coverage["race_reports_raw"] = raw
+	rep.Coverage["race_reports_in_emulator_code"] = len(reports)
 }
 
 func runRaceCheck(tier string, rep *Report) {
